@@ -72,6 +72,7 @@ def pool_get(e, fr, st, ins, site, args, cont):
     if name and name.endswith('linkedPool'):
         t = [x for x in e.p.types if x.endswith('netpoll.linkBufferNode') and e.p.desc(x).get('kind') == 'named'][0]
         r = st.newref('node')
+        e.no_dangling(st, r, t)
         # recycled node: arbitrary scalars, but buf/origin/next were cleared before Put
         for f in e.p.fields(t):
             fl = e.field_loc(st, r, t, f['name'])
